@@ -261,7 +261,8 @@ _PURE = {'len': len, 'int': int, 'float': float, 'str': str, 'bool': bool, 'abs'
          'sorted': sorted, 'sum': sum, 'any': any, 'all': all, 'range': range, 'enumerate': enumerate, 'zip': zip,
          'reversed': lambda x: list(reversed(x)),
          'isinstance': None, 'type': None, 'set': set, 'frozenset': frozenset, 'tuple': tuple,
-         'list': list, 'min': min, 'max': max}
+         'list': list, 'min': min, 'max': max, 'bin': bin, 'oct': oct, 'hex': hex, 'chr': chr, 'ord': ord, 'divmod': divmod,
+         'pow': pow, 'dict': dict, 'repr': repr, 'hash': hash, 'format': format, 'callable': callable}
 _STR_METHODS = {'startswith', 'endswith', 'find', 'upper', 'lower', 'strip', 'title',
                 'index', 'count', 'zfill', 'is_integer', 'replace', 'partition', 'rpartition',
                 'split', 'rsplit', 'removeprefix', 'removesuffix', 'lstrip', 'rstrip', 'join',
@@ -2108,6 +2109,16 @@ def _global_uncached(self, gref, n):
         cref_ = self.a.res.resolve(gnode_.func, gm_)
         if cref_ and cref_.startswith('ext:') and cref_.split('.')[0][4:] not in _PURE_LIBS and cref_ not in self.call_models:
             return Ref(gref)        # NAME = NewType(...), NAME = namedtuple(...): an opaque object known by its name
+    if isinstance(gnode_, ast.Call) and isinstance(gnode_.func, (ast.Name, ast.Attribute)) \
+            and self._is_pkg_class(self.a.res.resolve(gnode_.func, gm_) or ''):
+        # NAME = SomeClass(...): one instance per world (identity matters: `x is UNUSED`, `BLANK`)
+        try:
+            val = Interp(self.a, gm_, {}, world=self.world, call_models=self.call_models, inline_pkg=True).ev(gnode_)
+            if isinstance(val, Rec):
+                self.world.globals[gref] = val
+                return val
+        except (Unmodelled, ExcRaised):
+            pass
     if isinstance(gnode_, ast.Subscript):
         try:
             val = Interp(self.a, gm_, {}, world=self.world, call_models=self.call_models).ev(gnode_)
@@ -2122,10 +2133,12 @@ def _global_uncached(self, gref, n):
             raise Unfoldable('container holds results of library calls')
     except Unfoldable:
         val = None
-        if isinstance(gnode_, (ast.Dict, ast.List, ast.Tuple, ast.Set)):
+        if isinstance(gnode_, ast.expr) and not isinstance(gnode_, (ast.Lambda,)):
+            # a module-level expression the folder does not know (comprehension, call of a package helper, ...): interpreted
             try:
-                val = Interp(self.a, gm_, {}, world=self.world, call_models=self.call_models).ev(gnode_)
-            except Unmodelled:
+                val = Interp(self.a, gm_, {}, world=self.world, call_models=self.call_models, inline_pkg=True,
+                             depth=self.depth + 1).ev(gnode_)
+            except (Unmodelled, ExcRaised):
                 val = None
         if val is None:
             if gref:
